@@ -170,7 +170,9 @@ namespace DFS
     unsigned pos = 8;
     for (pos = 8; pos <= last_catalog_entry_pos; pos += 8)
       {
-	auto start_sector = buf1[pos + 7];
+	// The start sector is a 10-bit value: its top two bits are the
+	// low bits of the preceding byte.
+	const unsigned start_sector = buf1[pos + 7] | ((buf1[pos + 6] & 3u) << 8);
 	if (start_sector == 2)
 	  {
 	    /* Sector 2 is used by a file, so not Watford DFS. */
